@@ -127,6 +127,22 @@ def run_check(prop, tier):
                               % (r.kind, r.rc, r.case, r.stderr[-3000:])})
                 continue
             if not r.get('ok'):
+                # an exception that escaped from INSIDE the implementation (innermost frame in the
+                # BTrees package) or a SystemError from the extension is a finding about the
+                # implementation, not a harness error
+                trace = r.get('trace') or ''
+                files = [l for l in trace.splitlines() if l.lstrip().startswith('File "')]
+                inner = files[-1] if files else ''
+                if '/BTrees/' in inner or (r.get('error') or '').startswith('SystemError'):
+                    violations.append({
+                        'prop': prop, 'module': j['mod'],
+                        'sig': dict(site='job-exception', cls=(r.get('error') or '').split(':')[0],
+                                    fn=j['fn'], **{k: v for k, v in j.get('args', {}).items()
+                                                   if k in ('fam', 'kind', 'impl')}),
+                        'case': {'job': {k: j[k] for k in ('mod', 'fn', 'args') if k in j}},
+                        'detail': 'the implementation raised out of a harness step that never fails '
+                                  'on a correct tree: %s\n%s' % (r.get('error'), trace[-1500:])})
+                    continue
                 harness_errors.append((j, r))
                 continue
             res = r['result']
